@@ -277,6 +277,22 @@ CLAIMED = {
         'comparison (non-introspectable compatibility copies are dropped by the introspectable pass). Not generated: '
         '(method)/(constructor) annotations, aliases, callbacks, constants, unions, out-direction first parameters.',
    ref='DESIGN.md §4 C04'),
+ 'C05': dict(
+   technique='Coq proof of closure of the introspectable pass over arbitrary reference graphs (monotone fixpoint argument) + in-Coq correspondence through the real passes + a GIR linter for the cross-reference clauses',
+   text='Theorems (Coq, axiom-free): for EVERY reference graph of aliases, callback types, functions and other definitions (any size, '
+        'references forwards and backwards, chains of any length) the repaired pass ends in a state no further walk changes '
+        '(C05_fixpoint) in which whatever is still shown introspectable refers only to fundamental types and to definitions that are '
+        'themselves shown introspectable (C05_closed; proof: walks only clear flags (C05_only_clears), a walk that leaves the count '
+        'unchanged changed nothing and every node was stable, |nodes|+1 rounds suffice); the pass as found is refuted on an alias '
+        'chain and a callback chain (C05_found_not_closed, fix 8edfc58). Tie: generated reference graphs go through the real '
+        'Transformer, MainTransformer, IntrospectablePass and GIRWriter and the introspectable attribute of every node is compared with '
+        'the model inside Coq. The other clauses (no varargs/va_list/long long, transfer on every value, scope on callback '
+        'parameters, element types, closure/destroy/length indices in range, mutual shadows / type-struct / invoker / accessor links) '
+        'are judged by a linter on every GIR written by the generators of C01, C12, C15 and C16 and on the graphs themselves.',
+   note='PARTIAL for the cross-reference clauses: they are checked by the linter on generated GIRs (and proved where they belong: '
+        'indices C01, shadows C03, type-struct C12), not re-proved here. Trusted: Coq kernel+VM; stub lexer; a callable\'s own findings '
+        '(unresolved parameter, callback parameter of a callback type) are inputs of the model.',
+   ref='DESIGN.md §4 C05'),
 }
 
 PLANNED = {}
